@@ -121,6 +121,17 @@ structure Cfg where
 def setAt (xs : List Int) (i : Nat) (v : Int) : Option (List Int) :=
   if i < xs.length then some (xs.set i v) else none
 
+/-- `res[i] = calculateBatchReplicas(batches, replicas, i)` -/
+def incrStep1 (batches : List IntOrPct) (replicas : Int) (res : List Int) (i : Nat) : Option (List Int) := do
+  let b ← batches[i]?
+  setAt res i (calcBatchReplicas replicas b)
+
+/-- `res[i] -= res[i-1]` -/
+def incrStep2 (res : List Int) (i : Nat) : Option (List Int) := do
+  let a ← res[i]?
+  let b ← res[i - 1]?
+  setAt res i (a - b)
+
 /-- `calculatePlannedStepIncrements(batches, replicas, currentBatch)`; `none` = index out of
     range (`currentBatch ≥ len(batches)`).
     ```
@@ -131,16 +142,9 @@ def setAt (xs : List Int) (i : Nat) (v : Int) : Option (List Int) :=
 def plannedIncrements (batches : List IntOrPct) (replicas currentBatch : Int) : Option (List Int) := do
   let res0 := List.replicate batches.length (0 : Int)
   -- i = 0, 1, …, currentBatch
-  let res1 ← (List.range (currentBatch + 1).toNat).foldlM
-    (fun res i => do
-      let b ← batches[i]?
-      setAt res i (calcBatchReplicas replicas b)) res0
+  let res1 ← (List.range (currentBatch + 1).toNat).foldlM (incrStep1 batches replicas) res0
   -- i = currentBatch, …, 1
-  ((List.range currentBatch.toNat).reverse.map (· + 1)).foldlM
-    (fun res i => do
-      let a ← res[i]?
-      let b ← res[i - 1]?
-      setAt res i (a - b)) res1
+  ((List.range currentBatch.toNat).reverse.map (· + 1)).foldlM incrStep2 res1
 
 /-! ## patchPodBatchLabel -/
 
@@ -159,10 +163,11 @@ structure Patch where
   hash : Option String
   deriving Repr, DecidableEq, Inhabited
 
-/-- an entry of `updatedButUnpatchedPods`, with `podsToPatchControllerRevision[pod]` -/
+/-- an entry of `updatedButUnpatchedPods`: the pod (by position; `missing` is all the loops
+    read of it), with `podsToPatchControllerRevision[pod]` -/
 structure Cand where
   idx : Nat
-  pod : Pod
+  missing : Bool
   hash : Option String
   deriving Repr, DecidableEq, Inhabited
 
@@ -208,18 +213,22 @@ def decAt (xs : List Int) (k : Int) : Option (List Int) :=
   | none => none
   | some v => some (xs.set k.toNat (v - 1))
 
+/-- `podsToPatchControllerRevision[pod] = hash` when the look-up computed a hash -/
+def pushTodo (todo : List Cand) (idx : Nat) (pod : Pod) : Option String → List Cand
+  | some h => todo ++ [⟨idx, pod.missing, some h⟩]
+  | none => todo
+
 /-- body of the first loop of `patchPodBatchLabel` for the pod at position `idx` -/
 def scanPod (env : Env) (cfg : Cfg) (st : ScanSt) (idx : Nat) (pod : Pod) : ScanRes :=
   if pod.terminating then .ok st else
   match resolve env st.cache pod with
   | none => .err
   | some (eff, cache', hp) =>
-    let st := { st with cache := cache',
-                        todo := match hp with | some h => st.todo ++ [⟨idx, pod, some h⟩] | none => st.todo }
+    let st := { st with cache := cache', todo := pushTodo st.todo idx pod hp }
     -- we don't patch label for the active old revision pod
     if !consistent pod.tmplHash eff cfg.updateRevision then .ok st else
     if lbl pod.rolloutId != cfg.rolloutId then
-      .ok { st with stack := ⟨idx, pod, hp⟩ :: st.stack } else
+      .ok { st with stack := ⟨idx, pod.missing, hp⟩ :: st.stack } else
     match atoi (lbl pod.batchId) with
     | none => .ok st
     | some podBatchID =>
@@ -251,7 +260,7 @@ def patchInner (batchNo : Nat) : Nat → List Cand → List Patch → List Patch
   | 0, stack, acc => (acc, stack, .next)
   | _ + 1, [], acc => (acc, [], .exhausted)
   | n + 1, c :: rest, acc =>
-    if c.pod.missing then (acc, c :: rest, .err)
+    if c.missing then (acc, c :: rest, .err)
     else patchInner batchNo n rest (acc ++ [⟨c.idx, some batchNo, c.hash⟩])
 
 /-- outer loop `for i := len-1; i >= 0; i--` over `planned` reversed (head = highest batch) -/
@@ -270,7 +279,7 @@ def patchHashes : List Cand → List Patch → List Patch × Bool
   | [], acc => (acc, false)
   | c :: rest, acc =>
     if acc.any (fun p => p.idx == c.idx && p.batch.isSome) then patchHashes rest acc else
-    if c.pod.missing then (acc, true) else patchHashes rest (acc ++ [⟨c.idx, none, c.hash⟩])
+    if c.missing then (acc, true) else patchHashes rest (acc ++ [⟨c.idx, none, c.hash⟩])
 
 inductive Outcome where
   | panic
